@@ -158,9 +158,11 @@ pub(crate) mod verif_c18 {
     let mut v = Vec::with_capacity(hi);
     let mut k = 0;
     while k < hi { v.push(f()); k += 1; }
-    let n: usize = kani::any();
-    kani::assume(lo <= n && n <= hi);
-    unsafe { v.set_len(n); }
+    if lo < hi {
+      let n: usize = kani::any();
+      kani::assume(lo <= n && n <= hi);
+      unsafe { v.set_len(n); }
+    }
     v
   }
   const TAGS: [(&str, &str); 3] = [("n", "v"), ("n", "w"), ("m", "v")];
@@ -205,7 +207,7 @@ pub(crate) mod verif_c18 {
   // partition expressions); <= 2 topic expressions, <= 2 data tags on each side
   #[kani::proof]
   #[kani::stub(glob::Pattern::matches, glob_stub)]
-  #[kani::unwind(4)]
+  #[kani::unwind(3)]
   fn c18_criterion() {
     any_glob_table();
     let c = any_criterion(2, 2, 2);
@@ -224,7 +226,7 @@ pub(crate) mod verif_c18 {
   // partitions section
   #[kani::proof]
   #[kani::stub(glob::Pattern::matches, glob_stub)]
-  #[kani::unwind(4)]
+  #[kani::unwind(3)]
   fn c18_criterion_default_partition() {
     any_glob_table();
     let c = any_criterion(1, 2, 0);
@@ -244,7 +246,7 @@ pub(crate) mod verif_c18 {
   // expression each), entity with <= 1 partition
   #[kani::proof]
   #[kani::stub(glob::Pattern::matches, glob_stub)]
-  #[kani::unwind(4)]
+  #[kani::unwind(3)]
   fn c18_rule_applicable() {
     any_glob_table();
     let r = any_rule(2, 2, 1);
@@ -262,7 +264,7 @@ pub(crate) mod verif_c18 {
   // criterion, no partitions
   #[kani::proof]
   #[kani::stub(glob::Pattern::matches, glob_stub)]
-  #[kani::unwind(5)]
+  #[kani::unwind(4)]
   fn c18_first_rule() {
     any_glob_table();
     let g = Grant {
